@@ -5,7 +5,7 @@ for d in seeded/*/; do
   id=$(basename $d); prop=$(python3 -c "import json;print(json.load(open('$d/meta.json'))['property'])")
   if [ -n "$1" ] && [[ "$id" != $1* ]]; then continue; fi
   extra=""
-  case $prop in C04) extra="C03 C10";; C11) extra="C09";; C13) extra="C09";; C14) extra="C15 C19";; C15) extra="C14";; C16) extra="C01 C10";; C17) extra="C02 C03";; C18) extra="C08";; C19) extra="C14";; C20) extra="C14";; C01) extra="C02 C07";; C02) extra="C01 C17 C03";; C07) extra="C08 C01";; C08) extra="C07 C18";; C09) extra="C10";; C03) extra="C02";; esac
+  case $prop in C04) extra="C03 C10";; C11) extra="C09";; C13) extra="C09";; C14) extra="C15 C19";; C15) extra="C14";; C16) extra="C01 C10";; C17) extra="C02 C03";; C18) extra="C08 C14";; C19) extra="C14";; C20) extra="C14";; C01) extra="C02 C07";; C02) extra="C01 C17 C03";; C07) extra="C08 C01";; C08) extra="C07 C18";; C09) extra="C10";; C03) extra="C02";; esac
   python3 tools/run_seed.py $SEED_MODE $d/patch.diff $prop $extra > $d/check_result.json 2>&1
   echo "$id: $(python3 -c "
 import json,sys
